@@ -31,7 +31,12 @@ META = {
 }
 
 MUTANTS = """
-  (recorded from the actual runs)
+  M1 rt0.py discretize: reference mass scaling ``HB /= d*d*(d+1)*(d+2)`` -> ``d*d*(d+1)*(d+1)``        caught by "RT0: exact face fluxes" (all 35 grid/tensor classes)
+  M2 rt0.py discretize: ``div = -sd.cell_faces.T`` -> ``+sd.cell_faces.T``                                caught by "RT0: exact cell-centre pressures"
+  M3 dual_elliptic.py assemble_rhs: Dirichlet term ``-sign[is_dir] * bc_val`` -> ``+sign[is_dir] * bc_val``   caught by flux and pressure clauses of both methods
+  M4 mvem.py massHdiv: stabilisation weight ``w = weight * ||inv_K||`` -> ``0``                            caught by "MVEM: mass matrix symmetric positive definite"
+       (2-D/3-D classes; in 1-D the stabilisation term vanishes identically -- equivalent there)
+  M5 mvem.py massHdiv: consistency term ``Pi_s^T G Pi_s`` -> ``Pi_s^T (G^T/2) Pi_s``                       caught by "MVEM: exact face fluxes"
 """
 
 import warnings
